@@ -51,7 +51,7 @@ func (m *monC03) OnStep(r *Runner, st *Step) {
 			if !ok {
 				have = sdkmath.LegacyZeroDec()
 			}
-			if !have.Equal(c.Amount) && r.StrandedVals[v] {
+			if have.GT(c.Amount) && r.StrandedVals[v] {
 				// the validator was removed by x/staking while it carried alliance delegations and created again:
 				// the new record starts empty, the old delegations are still there (open finding)
 				broken = true
@@ -116,7 +116,7 @@ func (m *monC03) OnStep(r *Runner, st *Step) {
 		if !ok {
 			have = sdkmath.LegacyZeroDec()
 		}
-		if !have.Equal(a.TotalValidatorShares) && r.StrandedDenoms[d] {
+		if have.LT(a.TotalValidatorShares) && r.StrandedDenoms[d] {
 			// the asset's total still counts the shares of the validator record that was deleted
 			broken = true
 			r.Violate("C03.b", "validator-share-sum:validator-removed-by-staking", fmt.Sprintf("asset %s: validators' shares sum to %s, recorded total %s (diff %s)", d, have, a.TotalValidatorShares, have.Sub(a.TotalValidatorShares)))
